@@ -32,7 +32,8 @@ ASSUMPTIONS = [
     "key-frame durations: positive finite float32 values",
     "instances are found by walking module globals / registries, not by tracing every construction site",
 ]
-MUST_REACH = {"instances": 15, "raw_values_checked": 500000, "kinds_covered": 5, "durations": 10}
+MUST_REACH = {"instances": 15, "raw_values_checked": 500000, "kinds_covered": 5, "durations": 10, "composite_instances": 5,
+              "packed_quaternion_instances": 2, "raw_tuples_checked": 20000}
 
 
 class FakeRoot:
@@ -68,6 +69,58 @@ def discover():
             k = instance_key(obj)
             found.setdefault(k, (path, obj))
     return found
+
+
+def composite_key(obj):
+    if isinstance(obj, se.PackedQuat):
+        return ("PackedQuat",) + composite_key(obj._child_spec)
+    return (type(obj).__name__,) + tuple(instance_key(e) for e in obj._elem_specs)
+
+
+def discover_composites():
+    """Quantised vectors and the packed quaternions built on them: the representation is a tuple of raw integers."""
+    found = {}
+    for path, obj in specwalk.walk(specwalk.default_roots()):
+        if isinstance(obj, se.EncodedTupleCoord) or (isinstance(obj, se.PackedQuat)
+                                                     and isinstance(obj._child_spec, se.EncodedTupleCoord)):
+            found.setdefault(composite_key(obj), (path, obj))
+    return found
+
+
+def check_composite(ctx, key, obj, rng, n_random):
+    """Wire-level inverse law for a tuple of quantised components: whatever raw integers arrive, reading them through the
+    spec and writing the value back gives the same integers (object form and plain-data form)."""
+    import itertools
+    inner = obj._child_spec if isinstance(obj, se.PackedQuat) else obj
+    prims = [e._child_spec if isinstance(e, se.QuantizedFloatBase) else e._ser_spec for e in inner._elem_specs]
+    fmt = "<" + "".join(prim_fmt(p) for p in prims)
+
+    def corners(p):
+        mid = (p.min_val + p.max_val + 1) // 2
+        return sorted({p.min_val, p.min_val + 1, mid - 1, mid, mid + 1, p.max_val - 1, p.max_val})
+    tuples = list(itertools.product(*[corners(p) for p in prims]))
+    for _ in range(n_random):
+        tuples.append(tuple(rng.randint(p.min_val, p.max_val) for p in prims))
+    name = "+".join(k for k in key if isinstance(k, str))
+    for raws in tuples:
+        data = struct.pack(fmt, *raws)
+        for pod in (False, True):
+            try:
+                val = se.BufferReader("<", data, pod=pod).read(obj)
+                w = se.BufferWriter("<")
+                w.write(obj, val)
+                back = w.copy_buffer()
+            except Exception as e:
+                ctx.violation(f"raises:{name}", "reading / writing a tuple of raw values raised",
+                              {"instance": key, "raws": list(raws), "pod": pod, "exc": repr(e)[:200]})
+                return
+            if back != data:
+                ctx.violation(f"inverse:{name}:tuple", "a tuple of raw values read through the spec does not write back to the "
+                              "same raw values", {"instance": key, "raws": list(raws), "pod": pod, "decoded": repr(val)[:120],
+                                                  "rewritten": list(struct.unpack(fmt, back)) if len(back) == len(data) else repr(back)})
+                return
+        ctx.count("raw_tuples_checked")
+    return len(tuples)
 
 
 def sweep_scalar(ctx, name, key, raws, dec, enc, lower, upper, standard_step, zero_law, extra):
@@ -254,6 +307,10 @@ def run(ctx):
         else:
             for i in range(0, len(durations), 4):
                 work.append(("time", key, path, obj, durations[i:i + 4]))
+    composites = sorted(discover_composites().items(), key=lambda kv: repr(kv[0]))
+    ctx.flag("composite_instances_found", [repr(k)[:200] for k, _ in composites])
+    for key, (path, obj) in composites:
+        work.append(("tuple", key, path, obj, None))
     for i, (kind, key, path, obj, arg) in enumerate(work):
         if not ctx.mine(i):
             continue
@@ -264,7 +321,12 @@ def run(ctx):
         ctx.count("instances")
         ctx.cover("kinds", kind if kind != "qf" else type(obj).__name__)
         ctx.cover("instance_keys", repr(key))
-        if kind == "qf":
+        if kind == "tuple":
+            n = check_composite(ctx, key, obj, rng, ctx.pick(3000, 60000)) or 0
+            ctx.count("composite_instances")
+            if isinstance(obj, se.PackedQuat):
+                ctx.count("packed_quaternion_instances")
+        elif kind == "qf":
             check_quantized_float(ctx, key, obj)
             n = obj._child_spec.max_val - obj._child_spec.min_val + 1
         elif kind == "fp":
